@@ -27,7 +27,7 @@ Directives (lines starting with `//@`):
 whitespace-insensitively against the enclosing impl/trait/mod headers.
 """
 import os, re, sys, json, hashlib
-from rustlex import Source, norm, find_matches, split_arms, find_loops, find_closure, LexError
+from rustlex import Source, norm, find_matches, split_arms, find_loops, find_closure, find_inline_closures, LexError
 
 SPECS = os.path.join(os.path.dirname(os.path.abspath(__file__)), '..', 'specs')
 
@@ -266,6 +266,25 @@ class Gen:
                     raise LostAnchor('loop %d not found' % n)
                 inserts.append((src.toks[loops[n][3]].start, '\n' + txt + '\n'))
         for (n, needle, txt) in proof_ins:
+            if needle == '@tail':
+                # before the tail expression (or the closing brace) of the block [lo_tok, hi_tok]
+                k, last_semi = lo_tok + 1, None
+                while k < hi_tok:
+                    t = src.toks[k]
+                    if t.kind == 'punct' and t.text in '([{':
+                        k = src.match[k]
+                        # a block statement (if/loop/match) ends a statement too
+                        if t.text == '{' and not src.is_p(k + 1, '.') and not src.is_p(k + 1, '?'):
+                            last_semi = k
+                    elif t.kind == 'punct' and t.text == ';':
+                        last_semi = k
+                    k += 1
+                pos_tok = (last_semi + 1) if last_semi is not None else lo_tok + 1
+                # if the "tail" after a block statement is `else`, fall back to the closing brace
+                if src.is_id(pos_tok, 'else'):
+                    pos_tok = hi_tok
+                inserts.append((src.toks[pos_tok].start, '\n' + txt + '\n'))
+                continue
             base = src.toks[lo_tok].start
             body = src.text[base:src.toks[hi_tok].end]
             pos = -1
@@ -433,10 +452,21 @@ class Gen:
         pos, kw = self.kv(parts)
         rel, selector = pos[0], pos[1]
         src, it = self.find_fn(rel, selector)
-        c = find_closure(src, it.body_open, it.end, kw['name'])
-        if c is None:
-            raise LostAnchor('closure %s not found in %s' % (kw['name'], selector))
-        let_tok, params, b_lo, b_hi, end_tok = c
+        if 'name' in kw:
+            c = find_closure(src, it.body_open, it.end, kw['name'])
+            if c is None:
+                raise LostAnchor('closure %s not found in %s' % (kw['name'], selector))
+            let_tok, params, b_lo, b_hi, end_tok = c
+        else:
+            cs = find_inline_closures(src, it.body_open, it.end)
+            n = int(kw.get('nth', 0))
+            if n >= len(cs):
+                raise LostAnchor('inline closure %d not found in %s' % (n, selector))
+            let_tok, params, b_lo, b_hi = cs[n]
+            end_tok = b_hi
+            if 'params' in kw and norm(kw['params']) != norm(params):
+                raise LostAnchor('inline closure %d of %s has params %r' % (n, selector, params))
+            kw['name'] = '#%d' % n
         oblig = kw['as']
         header, loops, proofs = self.parse_block(block)
         self.begin_block(oblig, 'closure', rel, src, let_tok, end_tok, selector + ' closure ' + kw['name'])
